@@ -2,6 +2,7 @@ E = 'pdf/src/enc.rs'
 CHUNK_FACTS = ['chunks@.len() == data@.len() / 4',
                'forall|k: int| 0 <= k < chunks@.len() ==> (#[trigger] chunks@[k])@ == data@.subrange(4 * k, 4 * k + 4)']
 UNIT = {
+ 'rlimit': 60,   # headroom: the proof needs < 1/4 of this (checked with the half-rlimit stability run)
  'name': 'a85enc',
  'doc': 'ASCII85 / ASCIIHex encoders against ISO 32000-1 7.4.2-7.4.3; word_85 inverts base85_chunk',
  'items': {
